@@ -16,6 +16,9 @@ INFO = {
  "S-C14-1": ("C14", "estimate_minor accumulates candidate variants into gene.random_mutations in place", "two minor-stage calls on one Gene object, or comparing the catalogue with a fresh load", "caught as written"),
  "S-C15-1": ("C15", "major._filter_alleles applies the first threshold on the unfiltered coverage", "a site with exactly one qualifying reference read plus low-quality reads", "missed at first; caught after the lone-reference-read deviation was added to C15"),
  "S-C16-1": ("C16", "VCF deletion op built from the record's REF instead of the RefSeq-derived reference", "a deletion record whose REF differs from the reference in a deleted base", "missed at first; caught after the 'delref' encoding was added to C16"),
+ "S-C01-2": ("C01", "the generated N-padded reference for indel realignment is cached per process keyed by (contig name, length)", "two genotyping calls in one process for different genes on the same contig, the second sample carrying a catalogued indel", "caught as written (worker processes evaluate several generated databases on contig 7)"),
+ "S-C03-2": ("C03", "estimate_cn checks the no-copy-number fallback before the user-supplied structure", "a user-supplied list other than 1,1 for a gene without structural alleles or with the exome profile", "missed at first; caught after user lists on genes without copy-number calling (CYP2C19, G6PD, toy in exome mode) were added to C03"),
+ "S-C06-2": ("C06", "Sample.__init__ takes the multi-substitution table from a module-level cache keyed by gene name", "two Samples of same-named genes with different MNV sites in one process, the later one with reads showing a complete MNV", "caught as written (file states of both builds share worker processes)"),
  "S-C04-2": ("C04", "Gene.has_coverage memoized in a module-level dict keyed by (allele name, position) without the gene", "two Gene objects in one process sharing an allele name and coordinates but differing in structure", "missed by C04 (one gene per state) and by C14 at first; caught by C14 after a second gene with swapped fusion break points is held in the history context and its members are part of the operation alphabet"),
  "S-C10-2": ("C10", "solve_minor_model hoists `solution = []` out of the enumeration loop: all refinements of one major solution share one allele list", "max_minor_solutions >= 2 and a second optimal refinement", "caught as written (chain consistency on recorded real samples with max_minor_solutions=3)"),
  "S-C13-2": ("C13", "Gene._init_regions fills the position->region table through a helper with a mutable default argument: all Gene objects share one table", "two builds loaded in one process whose loci overlap numerically, structure with regions of different copy number", "missed at first (the overlapping stretch of the generated builds was symmetric); caught after the hg38 offsets were moved so that the loci overlap by 400 bases"),
